@@ -442,6 +442,15 @@ def one_transaction_per_request():
         n = len(writing_blocks) + len(awaited_openers)
         out.append((f"handlers/{h.name}/at_most_one_writing_transaction", n <= 1,
                     f"{len(writing_blocks)} own writing span(s) + awaited {awaited_openers}"))
+        # a span inside a loop (or a comprehension) is opened once per iteration: several transactions for one request
+        loops = [l for l in ast.walk(h) if isinstance(l, (ast.For, ast.AsyncFor, ast.While))]
+        looped = [b.lineno - h.lineno for b in writing_blocks
+                  if any(any(b is x for st in l.body + l.orelse for x in ast.walk(st)) for l in loops)]
+        looped_openers = [ast.unparse(c.func) for l in loops for st in l.body + l.orelse for a in ast.walk(st)
+                          if isinstance(a, ast.Await) for c in ast.walk(a.value) if isinstance(c, ast.Call)
+                          and ast.unparse(c.func).split(".")[-1] in openers]
+        out.append((f"handlers/{h.name}/no_writing_transaction_inside_a_loop", not looped and not looped_openers,
+                    f"writing span(s) at relative line(s) {looped} / awaited {looped_openers} inside a loop of the handler"))
     return out
 
 
